@@ -11,7 +11,7 @@ TARGETS = ['BC.Props.C03']
 PROP_FILES = ['BC/Props/C03.lean', 'BC/Lemmas/C03.lean', 'BC/Lemmas/C03Ex.lean']
 # source ties: function bodies regenerated from the Python source by translate/t_funcs.py, proved equal to the model functions
 SRC = {'module': 'BC.Props.C03Src', 'file': 'BC/Props/C03Src.lean', 'lemma_files': ['BC/Lemmas/SrcLoop.lean', 'BC/Lemmas/SrcFilter.lean', 'BC/Props/C12Src.lean', 'BC/Props/C05Src.lean', 'BC/Props/C04Src.lean'],
-       'theorems': ['C03_src_iterate', 'C03_src_loop', 'C03_src_integrate', 'C03_src_final_row', 'C03_src_filter_init', 'C03_src_should_record', 'C03_src_check_next_time', 'C03_src_skip_loop']}
+       'theorems': ['C03_src_iterate', 'C03_src_loop', 'C03_src_integrate', 'C03_src_final_row', 'C03_src_default_step', 'C03_src_given_step', 'C03_src_flags', 'C03_src_feet', 'C03_src_filter_init', 'C03_src_should_record', 'C03_src_check_next_time', 'C03_src_skip_loop']}
 THEOREMS = ['C03_rows_exact', 'C03_loop_exit_no_record', 'C03_time_step_records', 'C03_default_step']
 STATEMENTS = {
     'C03_src_iterate': 'SOURCE TIE, WHOLE LOOP BODY: the model function iterate (one iteration of the integration loop: wind update, atmosphere, recording, step, limit check) equals Src.loop_body, the entire body of the while loop of _integrate executed symbolically from the Python source on every run, for every loop state (hypotheses: atmosphere look-up answers, the speeds of sound entering velocity/mach are non-zero, the sock horizon is the class constant); C03_src_loop: one unfolding of the model loop = the source while-condition + iterate',
